@@ -325,8 +325,17 @@ def run(ctx, shard):
         ctx.case('pair', fa, fb, nontrivial=nontriv)
         with ctx.guard('pair'):
             A, B = PO.from_F2(fa.copy()), PO.from_F2(fb.copy())
-            A @ B
+            decoded_first = bool(rng.integers(2))
+            if decoded_first:  # history: the operands' lazily cached string / phase / matrices are filled before the algebra
+                A.sign, A.str_, B.sign, B.str_
+                if len(pa[1]) <= 3:
+                    A.full_matrix, B.np_list
+            C = A @ B
             A.commutate_with(B)
+            # the derived (lazily cached) views of the RESULT must describe the result (monitored property accessors)
+            C.sign, C.str_
+            if len(pa[1]) <= 3:
+                C.full_matrix
 
     def single_case(p, dense=True):
         f = rp.to_f2(p)
@@ -334,7 +343,16 @@ def run(ctx, shard):
         ctx.case('single', f, nontrivial=p[1].strip('I') != '', sample={'op': 'single', 'pauli': list(p), 'F2': f} if rng.random() < 0.02 else None)
         with ctx.guard('single'):
             A = PO.from_F2(f.copy())
-            A.inverse()
+            if rng.integers(2):  # history: decode the operand (fills its cached string / phase / matrix list) before inverting it
+                A.sign, A.str_, A.np_list
+                if dense:
+                    A.full_matrix
+            Ainv = A.inverse()
+            Ainv.sign, Ainv.str_  # monitored accessors on the result: must describe the inverse, not the operand
+            if dense:
+                mi = Ainv.full_matrix
+                ctx.check(np.array_equal(mi @ rp.f2_dense(f), np.eye(2**len(p[1]))), 'inverse/full_matrix', 'full_matrix of inverse() times the operand is not the identity',
+                          {'F2': f, 'inverse_F2': Ainv.F2})
             s, sign = P.pauli_F2_to_str(f)
             f2 = P.pauli_str_to_F2(s, sign)
             ctx.check(np.array_equal(f2, f), 'roundtrip/F2-str-F2', 'F2->str->F2 is not the identity', {'F2': f, 'back': f2})
